@@ -755,6 +755,9 @@ func init() {
 	}
 	reg("strings.TrimSpace", func(e *Exec, fn *ssa.Function, a []Value) Value {
 		s := str(a[0])
+		if cs, ok := concreteString(s); ok {
+			return e.strConst(strings.TrimSpace(cs))
+		}
 		e.requireASCII(s, "strings.TrimSpace")
 		lo, hi := 0, len(s.B)
 		for lo < hi && e.branch(isSpace(e, s.B[lo])) {
